@@ -178,8 +178,10 @@ def _partition(right):
         if not isinstance(sep, str) or len(sep) != 1:
             raise Unsupported("partition with a non-literal separator")
         sp = z3.StringVal(sep)
-        a = z3.Const(ctx.fresh_name("part_a"), z3.StringSort())
-        b = z3.Const(ctx.fresh_name("part_b"), z3.StringSort())
+        # functions of (text, separator): two calls on the same text denote the same parts
+        fa = z3.Function("rpart_a" if right else "part_a", z3.StringSort(), z3.StringSort(), z3.StringSort())
+        fb = z3.Function("rpart_b" if right else "part_b", z3.StringSort(), z3.StringSort(), z3.StringSort())
+        a, b = fa(t, sp), fb(t, sp)
         found = z3.Contains(t, sp)
         if right:
             ctx.assume(z3.If(found, z3.And(t == z3.Concat(a, sp, b), z3.Not(z3.Contains(b, sp))),
@@ -190,6 +192,73 @@ def _partition(right):
         mid = z3.If(found, sp, z3.StringVal(""))
         return (SV(STR, a), SV(STR, mid), SV(STR, b))
     return f
+
+
+def _str_split(interp, args, kwargs):
+    """s.split(sep) for a one-character literal sep, no maxsplit (native encoding): the result is a list whose members are exactly the
+    sep-free fields of s (e is a field iff it has no sep and s == e, s starts with e+sep, s ends with sep+e or s contains sep+e+sep)"""
+    from pyvc.vals import TList
+    from pyvc.core import mem_fn
+    ctx = interp.ctx
+    if len(args) != 2 or kwargs or not isinstance(args[1], str) or len(args[1]) != 1:
+        raise Unsupported("str.split other than split(<one literal character>)")
+    t = _s(interp, args[0])
+    sp = z3.StringVal(args[1])
+    ty = TList(STR)
+    so = sort_of(ty)
+    f = z3.Function("split_of", z3.StringSort(), z3.StringSort(), so)
+    r = f(t, sp)
+    e = z3.Const(ctx.fresh_name("fld"), z3.StringSort())
+    m = mem_fn(ty)
+    field = z3.And(z3.Not(z3.Contains(e, sp)),
+                   z3.Or(t == e, z3.PrefixOf(z3.Concat(e, sp), t), z3.SuffixOf(z3.Concat(sp, e), t), z3.Contains(t, z3.Concat(sp, e, sp))))
+    ctx.assume(so.len(r) >= 1)
+    ctx.assume(z3.ForAll([e], m(r, e) == field))
+    k = z3.Int(ctx.fresh_name("k"))
+    ctx.assume(z3.ForAll([k], z3.Implies(z3.And(0 <= k, k < so.len(r)), m(r, z3.Select(so.data(r), k)))))
+    return interp.ctx.wrap(r, ty)
+
+
+def _deepcopy(interp, args, kwargs):
+    """copy.deepcopy(x, memo): None / bool / int / str are returned as they are; for a modelled object the result is memo[id(x)] when the
+    memo has it, else an object allocated by this call (content not modelled).  The memo keeps its entries and may gain entries, every new
+    one mapping to an object allocated by this call."""
+    from pyvc.vals import Cell
+    from pyvc.core import BIRTH
+    ctx = interp.ctx
+    x = args[0]
+    memo = args[1] if len(args) > 1 else kwargs.get("memo")
+    if x is None or isinstance(x, (bool, int, float, str)) or (isinstance(x, SV) and x.ty.name in ("Bool", "Int", "Real", "Str", "AStr")):
+        return x
+    if not (isinstance(x, SV) and (x.ty.name == "Ref" or (x.ty.name == "Opt" and x.ty.args[0].name == "Ref"))):
+        return interp.opaque_call("copy.deepcopy", args, kwargs)
+    rty = x.ty if x.ty.name == "Ref" else x.ty.args[0]
+    key = x.t if x.ty.name == "Ref" else sort_of(x.ty).val(x.t)
+    now0 = ctx.now
+    new = interp.new_object(rty.args[0].name)
+    r = new.t
+    if isinstance(memo, Cell) and memo.kind == "dict":
+        if memo.sym is None:
+            interp.symbolise(memo)
+        mty = memo.sym.ty
+        ms = sort_of(mty)
+        m0 = memo.sym.t
+        r = z3.If(z3.Select(ms.dom(m0), key), z3.Select(ms.val(m0), key), new.t)
+        interp.mutate(memo, "copy.deepcopy(.., memo)")
+        m1 = z3.Const(ctx.fresh_name("memo"), ms)
+        k = z3.Int(ctx.fresh_name("k"))
+        ctx.assume(z3.ForAll([k], z3.If(z3.Select(ms.dom(m0), k),
+                                        z3.And(z3.Select(ms.dom(m1), k), z3.Select(ms.val(m1), k) == z3.Select(ms.val(m0), k)),
+                                        z3.Implies(z3.Select(ms.dom(m1), k), BIRTH(z3.Select(ms.val(m1), k)) >= now0))))
+        memo.sym = SV(mty, m1)
+        interp.write_back(memo)
+    now1 = z3.Int(ctx.fresh_name("now"))
+    ctx.assume(now1 >= ctx.now)
+    ctx.now = now1
+    if x.ty.name == "Ref":
+        return SV(rty, r)
+    so = sort_of(x.ty)
+    return SV(x.ty, z3.If(so.is_none(x.t), so.none, so.some(r)))
 
 
 def _str_count_native(interp, args, kwargs):
@@ -212,6 +281,26 @@ def _format_error_with_context(interp, args, kwargs):
     if entry is None or entry["severity"] != 1:
         raise Unsupported("format_error_with_context for a non-error kind")
     return _format_error(interp, list(args[1:]), kwargs)
+
+
+def _struct_equal(interp, args, kwargs):
+    """the structural == of HedGroup (uninterpreted reflexive relation, same symbol as the engine uses for `==`)"""
+    f = z3.Function("struct_eq", z3.IntSort(), z3.IntSort(), z3.BoolSort())
+    interp.ctx.assume(z3.Implies(args[0].t == args[1].t, f(args[0].t, args[1].t)))
+    return SV(BOOL, f(args[0].t, args[1].t))
+
+
+def _canon_of(interp, args, kwargs):
+    from pyvc.vals import TRef
+    f = z3.Function("canon_of", z3.IntSort(), z3.IntSort())
+    return SV(TRef("HedGroup"), f(interp.ctx.term(args[0], TRef("HedGroup"))))
+
+
+def _expansion_of(interp, args, kwargs):
+    from pyvc.vals import TRef, TOpt
+    ty = TOpt(TRef("HedGroup"))
+    f = z3.Function("expansion_of", z3.IntSort(), z3.IntSort(), z3.StringSort(), sort_of(ty))
+    return SV(ty, f(args[0].t, args[1].t, _s(interp, args[2])))
 
 
 def _empty_str_set(interp, args, kwargs):
@@ -347,12 +436,13 @@ if z3 is not None:
         "def_issues_of": _ulist("def_issues_of", 2), "all_tags_of": _ulist("all_tags_of", 1, "HedTag"),
         "derivative_unit_of": _derivative_unit_of, "float_parses": _float_parses, "float_of": _float_of, "SchemaEntry.has_attribute": _entry_has_attribute,
         "UnitClassEntry.has_attribute": _entry_has_attribute, "UnitEntry.has_attribute": _entry_has_attribute,
+        "struct_equal": _struct_equal, "canon_of": _canon_of, "expansion_of": _expansion_of,
         "def_tags_of": _ulist("def_tags_of", 1, "HedTag"),
         "tag_view": _tag_view, "basic_issues_of": _ulist("basic_issues_of", 3), "full_issues_of": _ulist("full_issues_of", 2),
         "str.rpartition": _partition(True), "str.partition": _partition(False),
         "str.count": _str_count_native, "count_of": _str_count_native,
         "ErrorHandler.format_error_with_context": _format_error_with_context,
-        "str.replace": _str_replace, "replace_all": _str_replace,
+        "str.replace": _str_replace, "str.split": _str_split, "copy.deepcopy": _deepcopy, "replace_all": _str_replace,
         "forall_str": _forall_str, "dirname_of": _dirname_model, "commonpath2": _ufun("commonpath2", 2),
         "os.path.commonpath": lambda interp, args, kwargs: _ufun("commonpath2", 2)(interp, list(interp.iter_items_concrete(args[0])), {}), "basename_of": _basename_model, "original_path_of": _ufun("original_path_of", 2),
         "backup_keys": lambda interp, args, kwargs: interp.ctx.wrap(z3.Function("backup_keys", z3.IntSort(), z3.StringSort(), sort_of(__import__("pyvc.vals", fromlist=["TList"]).TList(STR)))(args[0].t, _s(interp, args[1])), __import__("pyvc.vals", fromlist=["TList"]).TList(STR)), "unknown_src_map": _src_map, "src_of": _src_of,
